@@ -170,6 +170,7 @@ def one(ctx, case, data, tmpdir):
     ctx.count("strategy_" + case["strategy"])
     ctx.count("steps", s.steps)
     ctx.count("timeouts_fired", s.timeouts_fired)
+    ctx.count("timed_waits_offered", s.timed_waits)
     ctx.count("context_switches", s.context_switches)
     ctx.seen("stop_points(reads_started_at_stop)", at)
     if case.get("line_p"):
@@ -264,6 +265,7 @@ def systematic(ctx, conf, tmpdir):
                 ctx.count("systematic_schedules")
                 ctx.count("steps", s.steps)
                 ctx.count("timeouts_fired", s.timeouts_fired)
+                ctx.count("timed_waits_offered", s.timed_waits)
                 ctx.seen("stop_points(reads_started_at_stop)", at)
                 if not check_run(ctx, dict(case, deviations={str(a): b for a, b in devs.items()}), data, res, tmpdir):
                     all_ok = False
@@ -432,7 +434,7 @@ def sigint_child(ctx, rng, tmpdir, idx):
         return {"inconclusive": watchdog + " stderr=" + err.decode("utf-8", "replace")}
     time.sleep(rng.choice((0, 0.001, 0.01, 0.05)))
     p.send_signal(signal.SIGINT)
-    twice = idx % 3 == 2
+    twice = idx % 2 == 1
     if twice:
         # an impatient user: Ctrl-C again while the program is busy stopping (the producer has gone quiet, the reading thread
         # waits for input, the main thread waits for the reading thread).  The second interrupt ends the main thread; the
@@ -606,10 +608,11 @@ def replay(ctx, case):
 
 def inconclusive(merged, tier):
     c = merged["counters"]
+    _timed = ["monitor never observed timeouts_fired"] if c.get("timed_waits_offered", 0) and not c.get("timeouts_fired", 0) else []  # (an implementation whose waits carry no timeout offers none to fire)
     need = ["scheduled_runs", "stop_points_enumerated", "streams_with_every_stop_point_covered", "stops_before_stream_end",
             "stops_with_a_read_in_flight", "observer_logs_checked", "saved_streams_checked", "joiner_files_checked",
-            "line_mode_runs", "instruction_mode_runs", "all_module_line_mode_runs", "sigint_children_checked", "timeouts_fired", "systematic_schedules", "systematic_pipelines_fully_enumerated", "stops_after_an_injected_source_fault", "stops_over_an_overlapping_reader", "stops_requested_by_an_observer_thread", "stops_in_streams_with_blocks_that_look_like_internal_messages", "lagging_saver_runs", "lagging_observer_stop_runs", "huge_stop_runs", "unencodable_stop_runs"]
-    out = [f"monitor never observed {k}" for k in need if c.get(k, 0) == 0]
+            "line_mode_runs", "instruction_mode_runs", "all_module_line_mode_runs", "sigint_children_checked", "systematic_schedules", "systematic_pipelines_fully_enumerated", "stops_after_an_injected_source_fault", "stops_over_an_overlapping_reader", "stops_requested_by_an_observer_thread", "stops_in_streams_with_blocks_that_look_like_internal_messages", "lagging_saver_runs", "lagging_observer_stop_runs", "huge_stop_runs", "unencodable_stop_runs"]
+    out = [f"monitor never observed {k}" for k in need if c.get(k, 0) == 0] + _timed
     if c.get("inconclusive_runs", 0) > max(3, c.get("scheduled_runs", 0) // 50):
         out.append(f"{c['inconclusive_runs']} runs hit a step/wall cap or the sigint driver's watchdog")
     return out
